@@ -224,7 +224,7 @@ def own(chk, facts):
         ok = file in ("cedar-policy-core/src/entities.rs", "cedar-policy-core/src/ast/entity.rs")
         chk.ob(rule, "field-writers:" + file, ok, "%d mutable access(es) to Entity.parents / Entity.indirect_ancestors / Entities.entities in %s" % (len(occ), file),
                where="%s:%s" % (file, occ[0][1]), key="%s:writer:%s" % (rule, file), sample={"file": file, "accesses": len(occ)})
-    chk.floor(rule, "mutator call sites", n, 10)
+    chk.floor(rule, "mutator call sites", n, 9)
     # fields are private, so the inventory above is total over other crates
     for adt, fields in (("cedar_policy_core::entities::Entities", ("entities",)), ("cedar_policy_core::ast::entity::Entity", ("parents", "indirect_ancestors"))):
         r = facts.adts.get(adt)
@@ -271,7 +271,7 @@ def api_const(chk, facts):
                    "public API call of %s passes TCComputation::%s (must be ComputeNow: the library computes and checks the closure)" % (c.split("::")[-2] + "::" + c.split("::")[-1], mode),
                    where=f.where(t[1].get("l")), fn=name, key="%s:%s:%s" % (rule, name, c.split("::")[-1]),
                    sample={"caller": short(name), "callee": c.split("::")[-1], "mode": mode})
-    chk.floor(rule, "API call sites passing a TCComputation", n, 16)
+    chk.floor(rule, "API call sites passing a TCComputation", n, 15)
 
 
 def field_use(chk, facts):
